@@ -52,10 +52,10 @@ PROPS = {
     "C02": {"theorems": props_theorems("C02") + C01_CORE + TIE_KMER + TIE_LETTERS, "partial": []},
     "C03": {"theorems": props_theorems("C03") + TIE_LETTERS, "partial": []},
     "C04": {"ub_build": True, "theorems": props_theorems("C04") + C01_CORE + TIE_KMER + T("KtVerif.Props.FloatLemmas", ["f64OfNat_exact", "f64Div_nat_err", "f64Div_zero", "fmt6_quotient_correct", "fmt6_length"]), "partial": []},
-    "C08": {"ub_build": True, "theorems": props_theorems("C08") + C01_CORE + TIE_KMER + T("KtVerif.Props.FloatLemmas", ["covBinF64_eq_div", "fmt6_quotient_correct"]), "partial": []},
-    "C11": {"theorems": props_theorems("C11") + TIE_CGR + T("KtVerif.Props.FloatLemmas", ["roundDiv_err", "f64OfNat_exact"]), "partial": []},
+    "C08": {"ub_build": True, "theorems": props_theorems("C08") + T("KtVerif.Props.E2E2", ["cntOfTable_eq", "cov_end_to_end"]) + C01_CORE + TIE_KMER + T("KtVerif.Props.FloatLemmas", ["covBinF64_eq_div", "fmt6_quotient_correct"]), "partial": []},
+    "C11": {"theorems": props_theorems("C11") + T("KtVerif.Props.E2E2", ["cgrF64_in_square", "cgrF64_subsquare"]) + TIE_CGR + T("KtVerif.Props.FloatLemmas", ["roundDiv_err", "f64OfNat_exact"]), "partial": []},
     "C12": {"theorems": props_theorems("C12") + TIE_OCGR + TIE_CGR + C01_CORE + TIE_KMER, "partial": []},
-    "C05": {"theorems": props_theorems("C05") + T("KtVerif.Props.E2E", ["oligoRowText_length", "oligoRowText_eq_spec", "oligo_mmap_end_to_end", "oligo_batch_end_to_end", "oligoRowSpec_le_total"]), "partial": []},
+    "C05": {"theorems": props_theorems("C05") + T("KtVerif.Props.E2E2", ["containers_agree"]) + T("KtVerif.Props.E2E", ["oligoRowText_length", "oligoRowText_eq_spec", "oligo_mmap_end_to_end", "oligo_batch_end_to_end", "oligoRowSpec_le_total"]), "partial": []},
     "C14": {"ub_build": True, "theorems": props_theorems("C14") + TIE_NUMSZ + T("KtVerif.Props.FloatLemmas", ["fmt6_length", "f64Div_le_one"]), "partial": []},
     "C06": {"theorems": props_theorems("C06") + TIE_FMT, "partial": []},
     "C07": {"theorems": props_theorems("C07") + T("KtVerif.Props.E2E", ["count_chunks_end_to_end", "count_end_to_end"]) + C01_CORE + TIE_KMER, "partial": []},
